@@ -224,6 +224,7 @@ func (r *Run) Finish() int {
 	}
 	sort.Strings(sigs)
 	knownHit := map[int]int{}
+	knownSigs := map[string]int{}
 	var fresh []string
 	for _, s := range sigs {
 		matched := false
@@ -237,6 +238,7 @@ func (r *Run) Finish() int {
 			}
 			if re.MatchString(s) {
 				knownHit[i] += r.violCount[s]
+				knownSigs[s] = r.violCount[s]
 				matched = true
 				break
 			}
@@ -278,6 +280,9 @@ func (r *Run) Finish() int {
 		"rule":                r.Rule,
 		"samples":             r.Samples,
 		"exhaustive":          r.Exhaustive,
+	}
+	if len(knownSigs) > 0 {
+		cov["known_finding_signatures"] = knownSigs // the exact signatures the listed findings absorbed in this run
 	}
 	for k, v := range r.Counters {
 		cov[k] = v
